@@ -19,11 +19,17 @@ class Ref(Expression):
     def resolved(self):
         return self.name if self._resolved is None else self._resolved
 
+    @property
+    def is_super(self):
+        # `super.R` is bound to the parent of the grammar it is written in, not to
+        # the parent of whichever grammar happens to be running the rule.
+        return self.resolved.startswith('_super_ctx.')
+
     def __str__(self):
         return self.name
 
     def _compile(self, out, flags):
-        if flags.uses_context and not self.is_local:
+        if flags.uses_context and not self.is_local and not self.is_super:
             func = Code(f'_ctx.{self.resolved}')
         else:
             func = Code(self.resolved)
